@@ -64,7 +64,7 @@ Print Assumptions C12_response_closed_exactly_once.
    fault, the body handed out by the transport is closed twice: by httputil.DumpResponse, which has copied it,
    and again by the deferred Close *)
 Theorem C12_response_closed_exactly_once_refuted_without_resp_close_held :
-  let fx := mkfx true true true true false in
+  let fx := mkfx true true true true false true in
   let sc := mksc false ANone false (TRespond None RespRead) true in
   let c := call fx (compile fx 0 [mkfp true true [true]]) sc in
   dump_closes_twice sc = true /\
@@ -75,7 +75,7 @@ Print Assumptions C12_response_closed_exactly_once_refuted_without_resp_close_he
 (* the deferred Close has to be registered before the Debug dump: registered after it, a response body that
    fails while it is dumped is never closed *)
 Theorem C12_release_refuted_without_resp_close_first :
-  let fx := mkfx true true true false true in
+  let fx := mkfx true true true false true true in
   let c := call fx (compile fx 0 [mkfp true true [true]])
                 (mksc false ANone false (TRespond None (mkrb CtConsumed false RFLate)) true) in
   c_result c = RFail /\ c_resp_opened c = 1 /\ c_resp_closes c = 0 /\ released c = false.
@@ -90,21 +90,21 @@ Print Assumptions C12_writer_never_blocked_after_close.
 
 (* the three repairs of the upload side are each necessary (the witnesses are the defects F-C12-1, F-C12-2, F-C12-4) *)
 Theorem C12_release_refuted_without_late_close :
-  let fx := mkfx true false true true true in
+  let fx := mkfx true false true true true true in
   let c := call fx (compile fx 0 one_file) (mksc false (AFail false) false (TFail 0) false) in
   released c = false /\ w_done (c_w c) = false /\ w_file_closes (c_w c) = 0.
 Proof. exact release_needs_late_close. Qed.
 Print Assumptions C12_release_refuted_without_late_close.
 
 Theorem C12_release_refuted_without_defer_first :
-  let fx := mkfx false true true true true in
+  let fx := mkfx false true true true true true in
   let c := call fx (compile fx 1 one_file) (mksc false ANone false (TFail 0) false) in
   released c = false /\ w_done (c_w c) = true /\ w_file_closes (c_w c) = 0.
 Proof. exact release_needs_defer_first. Qed.
 Print Assumptions C12_release_refuted_without_defer_first.
 
 Theorem C12_release_refuted_without_param_close :
-  let fx := mkfx true true false true true in
+  let fx := mkfx true true false true true true in
   released (call fx (compile fx 0 one_file) (mksc true ANone false (TFail 0) false)) = false.
 Proof. exact release_needs_param_close. Qed.
 Print Assumptions C12_release_refuted_without_param_close.
@@ -200,17 +200,19 @@ Proof. exact client_instead_refuted. Qed.
 Print Assumptions C12_deadline_refuted_if_client_timeout_replaces_request_timeout.
 
 (* ---- the error value an upload source fails with ---- *)
-(* srcfile: per Read of a (sticky) source what it reports: nil, io.EOF, io.ErrUnexpectedEOF, any other error value;
-   src_fails: the first Read that does not return nil reports something else than io.EOF. Whatever the value, at the
-   sniffing ReadFull or at any Read of the copy, with or without bytes next to the error: not a success once the body
-   is consumed to its end. src_fails_visibly leaves out the one case of the next theorem but one. *)
+(* srcfile: per Read of a source what it reports: nil, io.EOF, io.ErrUnexpectedEOF, any other error value; sticky, or
+   reported once and io.EOF afterwards. src_fails: the first Read that does not return nil reports something else than
+   io.EOF. Whatever the value, inside the sniffing window or at any Read of the copy, with or without bytes next to the
+   error, sticky or not: not a success once the body is consumed to its end. Holds at full strength since the repair of
+   F-C12-6 (fx_sniff_eof_only: while the window is filled only io.EOF is the end of the source). *)
 Theorem C12_upload_failure_any_error_value : forall fx nv files sc,
-  existsb src_fails_visibly files = true -> sc_param_err sc = false ->
+  fx_sniff_eof_only fx = true ->
+  existsb src_fails files = true -> sc_param_err sc = false ->
   (match sc_auth sc with
    | AOk true | AFail true => True
    | _ => sc_debug sc = true \/ exists r, sc_transport sc = TRespond None r
    end) ->
-  c_result (call fx (compile fx nv (map lower files)) sc) = RFail.
+  c_result (call fx (compile fx nv (map (lower_fx fx) files)) sc) = RFail.
 Proof. exact upload_failure_any_error_value. Qed.
 Print Assumptions C12_upload_failure_any_error_value.
 
@@ -219,24 +221,37 @@ Theorem C12_early_end_is_no_failure : forall f, src_fails f = false -> fp_fails 
 Proof. exact early_end_is_no_failure. Qed.
 Print Assumptions C12_early_end_is_no_failure.
 
-(* the test that suits the sniffing io.ReadFull (io.EOF and io.ErrUnexpectedEOF both mean a short file there) must not
+(* the test of the old sniffing io.ReadFull (io.EOF and io.ErrUnexpectedEOF both mean a short file there) must not
    be applied to the copy: a source truncated in the middle of the copy would be answered as a success *)
 Theorem C12_upload_failure_refuted_if_truncation_is_benign : exists files sc,
-  existsb src_fails_visibly files = true /\ sc_param_err sc = false /\
+  existsb src_fails files = true /\ sc_param_err sc = false /\
   (exists r, sc_transport sc = TRespond None r) /\
   c_result (call all_fixed (compile all_fixed 0 (map lower_trunc_benign files)) sc) = ROk /\
   c_result (call all_fixed (compile all_fixed 0 (map lower files)) sc) = RFail.
 Proof. exact upload_failure_refuted_if_truncation_is_benign. Qed.
 Print Assumptions C12_upload_failure_refuted_if_truncation_is_benign.
 
-(* F-C12-6 (open): a source that is not sticky and reports io.ErrUnexpectedEOF once inside the sniffing window, io.EOF
-   afterwards, is taken for a short file: a failing source, the body consumed to its end, and the call succeeds *)
-Theorem C12_upload_failure_refuted_for_truncation_once_inside_sniff_window : exists f sc,
+(* F-C12-6 (repaired): the repair is needed. With the window filled by io.ReadFull (sniff_unrepaired) a source that is not
+   sticky and reports io.ErrUnexpectedEOF once inside the sniffing window, io.EOF afterwards, was taken for a short file:
+   a failing source, the body consumed to its end, and the call succeeded; with the repair the same call fails *)
+Theorem C12_upload_failure_refuted_without_sniff_eof_only : exists f sc,
   src_fails f = true /\ sniff_swallowed f = true /\ sc_param_err sc = false /\
   (exists r, sc_transport sc = TRespond None r) /\
-  c_result (call all_fixed (compile all_fixed 0 (map lower [f])) sc) = ROk.
-Proof. exact upload_failure_refuted_for_truncation_once_inside_sniff_window. Qed.
-Print Assumptions C12_upload_failure_refuted_for_truncation_once_inside_sniff_window.
+  c_result (call sniff_unrepaired (compile sniff_unrepaired 0 (map (lower_fx sniff_unrepaired) [f])) sc) = ROk /\
+  c_result (call all_fixed (compile all_fixed 0 (map (lower_fx all_fixed) [f])) sc) = RFail.
+Proof. exact upload_failure_refuted_without_sniff_eof_only. Qed.
+Print Assumptions C12_upload_failure_refuted_without_sniff_eof_only.
+
+(* ... and that was the only such case: with or without the repair every other failing source is reported *)
+Theorem C12_upload_failure_before_sniff_repair : forall fx nv files sc,
+  existsb (fun f => src_fails f && negb (sniff_swallowed f)) files = true -> sc_param_err sc = false ->
+  (match sc_auth sc with
+   | AOk true | AFail true => True
+   | _ => sc_debug sc = true \/ exists r, sc_transport sc = TRespond None r
+   end) ->
+  c_result (call fx (compile fx nv (map (lower_fx fx) files)) sc) = RFail.
+Proof. exact upload_failure_before_sniff_repair. Qed.
+Print Assumptions C12_upload_failure_before_sniff_repair.
 
 (* ---- what Submit leaves behind for the next call on the same Runtime ---- *)
 (* the response body is closed exactly once; with connection reuse its end has been seen when it is closed (the
